@@ -173,7 +173,9 @@ pub(crate) struct RequestResponseProtocol {
     >,
 
     /// Pending dials for outbound requests.
-    pending_dials: HashMap<PeerId, RequestContext>,
+    ///
+    /// Several requests can be waiting for the same dial to finish.
+    pending_dials: HashMap<PeerId, Vec<RequestContext>>,
 
     /// TX channel for sending events to the user protocol.
     event_tx: Sender<InnerRequestResponseEvent>,
@@ -241,54 +243,65 @@ impl RequestResponseProtocol {
                 );
                 entry.insert(PeerContext::new());
             }
-            Some(context) => match self.service.open_substream(peer) {
-                Ok(substream_id) => {
-                    tracing::trace!(
-                        target: LOG_TARGET,
-                        ?peer,
-                        protocol = %self.protocol,
-                        request_id = ?context.request_id,
-                        ?substream_id,
-                        "dial succeeded, open substream",
-                    );
+            Some(contexts) => {
+                let mut active = HashSet::new();
+                let mut failed = Vec::new();
 
+                for context in contexts {
+                    match self.service.open_substream(peer) {
+                        Ok(substream_id) => {
+                            tracing::trace!(
+                                target: LOG_TARGET,
+                                ?peer,
+                                protocol = %self.protocol,
+                                request_id = ?context.request_id,
+                                ?substream_id,
+                                "dial succeeded, open substream",
+                            );
+
+                            active.insert(context.request_id);
+                            self.pending_outbound.insert(substream_id, context);
+                        }
+                        // only reason the substream would fail to open would be that the
+                        // connection would've been reported to the protocol with enough delay
+                        // that the keep-alive timeout had expired and no other protocol had
+                        // opened a substream to it, causing the connection to be closed
+                        Err(error) => {
+                            tracing::warn!(
+                                target: LOG_TARGET,
+                                ?peer,
+                                protocol = %self.protocol,
+                                request_id = ?context.request_id,
+                                ?error,
+                                "failed to open substream",
+                            );
+
+                            failed.push((context.request_id, error));
+                        }
+                    }
+                }
+
+                // as before, the peer is not registered if no substream could be opened for it
+                if !active.is_empty() || failed.is_empty() {
                     entry.insert(PeerContext {
-                        active: HashSet::from_iter([context.request_id]),
+                        active,
                         active_inbound: HashMap::new(),
                     });
-                    self.pending_outbound.insert(
-                        substream_id,
-                        RequestContext::new(
-                            peer,
-                            context.request_id,
-                            context.request,
-                            context.fallback,
-                        ),
-                    );
                 }
-                // only reason the substream would fail to open would be that the connection
-                // would've been reported to the protocol with enough delay that the keep-alive
-                // timeout had expired and no other protocol had opened a substream to it, causing
-                // the connection to be closed
-                Err(error) => {
-                    tracing::warn!(
-                        target: LOG_TARGET,
-                        ?peer,
-                        protocol = %self.protocol,
-                        request_id = ?context.request_id,
-                        ?error,
-                        "failed to open substream",
-                    );
 
-                    return self
+                let mut result = Ok(());
+                for (request_id, error) in failed {
+                    result = self
                         .report_request_failure(
                             peer,
-                            context.request_id,
+                            request_id,
                             RequestResponseError::Rejected(error.into()),
                         )
                         .await;
                 }
-            },
+
+                return result;
+            }
         }
 
         Ok(())
@@ -624,20 +637,22 @@ impl RequestResponseProtocol {
     }
 
     async fn on_dial_failure(&mut self, peer: PeerId) {
-        if let Some(context) = self.pending_dials.remove(&peer) {
+        if let Some(contexts) = self.pending_dials.remove(&peer) {
             tracing::debug!(target: LOG_TARGET, ?peer, protocol = %self.protocol, "failed to dial peer");
 
-            let _ = self
-                .peers
-                .get_mut(&peer)
-                .map(|peer_context| peer_context.active.remove(&context.request_id));
-            let _ = self
-                .report_request_failure(
-                    peer,
-                    context.request_id,
-                    RequestResponseError::Rejected(RejectReason::DialFailed(None)),
-                )
-                .await;
+            for context in contexts {
+                let _ = self
+                    .peers
+                    .get_mut(&peer)
+                    .map(|peer_context| peer_context.active.remove(&context.request_id));
+                let _ = self
+                    .report_request_failure(
+                        peer,
+                        context.request_id,
+                        RequestResponseError::Rejected(RejectReason::DialFailed(None)),
+                    )
+                    .await;
+            }
         }
     }
 
@@ -751,10 +766,10 @@ impl RequestResponseProtocol {
                             "started dialing peer",
                         );
 
-                        self.pending_dials.insert(
-                            peer,
-                            RequestContext::new(peer, request_id, request, fallback),
-                        );
+                        self.pending_dials
+                            .entry(peer)
+                            .or_default()
+                            .push(RequestContext::new(peer, request_id, request, fallback));
                         return Ok(());
                     }
                     Err(error) => {
